@@ -221,4 +221,14 @@ example : bkTreeFermionOk Generated.eqTolerance 6
     [([(4, 1), (1, 0)], ⟨2, 0⟩), ([(1, 0), (4, 1)], ⟨-(mkRat 1 2), 0⟩), ([(5, 1)], ⟨0, 1⟩)] = true := by
   decide +kernel
 
+/-! ### statements of C05 that are NOT proved here (covered by correspondence + Spec oracle only; see
+`OPEN_STATEMENTS` in harness/c05.py)
+
+* `srl_sound` (open): for `i, j < n`, `⟨enc s'| srlOp i j c n |enc s⟩ = ⟨s'| c a†_i a_j |s⟩` (cases 1-10 of
+  `_seeley_richard_love`; only the exhaustiveness of the case split, `srl_cases_exhaustive`, is proved).
+* `bk_interaction_sound` (open): `bkInteractionOp N n …` denotes the tensor formula under `enc .bk n`, for all
+  `n ≥ N` (would follow from `srl_sound` and the product/sum lemmas used for `bk_exact`).
+* CAR, diagonal number operators, vacuum, isospectrality with Jordan-Wigner as separate statements (they follow
+  from `bk_term_exact` / `tree_term_exact`, the injectivity of `enc`, `enc 0 = 0`, and the Spec's CAR lemmas). -/
+
 end OFV.C05
